@@ -650,7 +650,7 @@ func (b *builder) runHdStr(c *vrun.Ctx, ht *hdStrTable, rc rawCase, edits int) e
 	}
 	if cs.S.Total != 82 && cs.S.KeyType != "priv" {
 		// the key field has no position in a string of another length
-		c.AddTraces(1)
+		c.AddExtra("rows_standing_for_another", 1)
 		return nil
 	}
 	for rep := 0; rep < 3; rep++ {
